@@ -11,12 +11,13 @@ THEOREMS = [_P + n for n in (
     'C19_suggestions_sentence_mindsdb', 'C19_lexer_caret', 'C19_bad_token_prefix',
     'C19_bad_token_prefix_mindsdb', 'C19_full_false',
     'C19_witness_short_caret', 'C19_witness_newline_in_token', 'C19_witness_truncation',
-    'C19_witness_replace_previous', 'C19_witness_replace_index0', 'C19_witness_lexer_first_line')]
+    'C19_witness_replace_previous', 'C19_witness_replace_index0')]
 ASSUME = [
     'ErrorHandling.error_location / make_suggestion / process and MindsDBLexer.error are hand-modelled '
     '(MindsVerif.Err); tie = the message correspondence stream of this run (model message == real message, byte for byte)',
-    'the lexer position invariants (Layout) are a hypothesis of the caret theorem; they are checked on every '
-    'token list of the stream (probe `layout-invariant`), not proved about sly/lex.py',
+    'the lexer position invariants (layoutOK) and value = source slice (since repo 5f4cdd1 no mindsdb lexer action '
+    'rewrites token.value) are hypotheses of the caret theorems; both are checked on every token list of the stream '
+    '(probes `layout-invariant`, `value-is-source`), not proved about sly/lex.py',
     'query_is_valid is modelled by acceptance of the LR model; semantic actions of the re-parse are not modelled',
     'completability half of "first token the grammar cannot accept" is search only (Earley oracle)',
 ]
@@ -426,6 +427,7 @@ def run(chk):
             k['_reproduced'] = any(kf_match(k, f) for f in fs)
     lines, metas, dist = [], [], {}
     lay_bad = None
+    src_bad = None
     for case in case_stream(rng, n_mut, n_sent, G):
         text = case['text']
         kind, msg = real_message(text)
@@ -448,6 +450,8 @@ def run(chk):
                     dist['corr/reparse-action-raised'] = dist.get('corr/reparse-action-raised', 0) + 1
                 if not layout_invariant(info['toks'], info['sql']) and lay_bad is None:
                     lay_bad = text
+                if src_bad is None and any(str(t.value) != info['sql'][t.index:t.end] for t in info['toks']):
+                    src_bad = text
                 lines.append(model_line_syn(R, info))
                 metas.append((case, msg))
                 nl = len({t.lineno for t in info['toks']})
@@ -463,6 +467,9 @@ def run(chk):
                 lines.append('L %d %s' % (info['lexerr'], enc(info['sql'])))
                 metas.append((case, '\n'.join(msg.split('\n')[1:])))
                 dist['corr/lex'] = dist.get('corr/lex', 0) + 1
+    chk.oblige('probe:value-is-source', 'probe', src_bad is None,
+               '' if src_bad is None else 'real lexer produced a token whose value is not its source slice '
+               '(hypothesis of C19_caret_source, repo 5f4cdd1): %r' % src_bad)
     chk.oblige('probe:layout-invariant', 'probe', lay_bad is None,
                '' if lay_bad is None else 'real lexer produced a token list violating Layout: %r' % lay_bad)
     try:
